@@ -14,6 +14,10 @@ def x_jobs():
     j.append(X("c07_long_stream", {"pre": 4094, "t": 8, "left": 2, "right": 2, "n": 2, "mode": "fp", "max_paths": 400000, "max_steps": 20000000000},
                "position counters across step 4096: reversal detectors (2,2) and arg-extremum trackers(2) fed 4094 concrete zig-zag inputs, then 8 symbolic inputs (deepening; best effort)", tier="t", core=False, cost=3000, timeout=14000,
                encodes=["src/methods/reversal.rs", "src/methods/highest_lowest_index.rs"]))
+    for down in (0, 1):
+        j.append(X("c07_psar_long", {"pre": 300, "t": 2, "step_den": 2048, "ratio": 400, "down": down, "no_merge": 1},
+                   "ParabolicSAR's per-trend step counter beyond 255: af_step 1/2048, af_max 400 steps, one uninterrupted %s trend of 300 concrete bars each making a new extreme, then 2 symbolic valid candles (continuation or stop-and-reverse): SAR and trend equal Wilder's state machine at steps 255, 256 and the last 5" % ("falling" if down else "rising"),
+                   cost=30, timeout=1200, encodes=["src/indicators/parabolic_sar.rs: ParabolicSAR::init, ParabolicSARInstance::next"]))
     for k in ("sma", "wma", "swma", "linreg", "trima", "hma"):
         for n in (2, 3, 4):
             if k == "hma" and n < 2:
